@@ -381,6 +381,7 @@ pub fn print_case(run: usize, p: &Problem, dir: &str) -> Value {
         s1.print_to_buffer();
         s1.solve();
         let b1 = s1.get_print_buffer().unwrap();
+        let b1_again = s1.get_print_buffer().unwrap();       // reading the buffer does not consume it
         // stream
         let shared = SharedBuf(Arc::new(Mutex::new(vec![])));
         let mut s2 = mk(true);
@@ -388,6 +389,11 @@ pub fn print_case(run: usize, p: &Problem, dir: &str) -> Value {
         let getbuf_stream_err = s2.get_print_buffer().is_err();
         s2.solve();
         let b2 = String::from_utf8_lossy(&shared.0.lock().unwrap()).to_string();
+        // a second solve on both: each target then holds both logs
+        s1.solve();
+        s2.solve();
+        let b1_two = s1.get_print_buffer().unwrap();
+        let b2_two = String::from_utf8_lossy(&shared.0.lock().unwrap()).to_string();
         // file
         let path = format!("{}/print_{}.txt", dir, run);
         let f = std::fs::File::create(&path).unwrap();
@@ -444,6 +450,8 @@ pub fn print_case(run: usize, p: &Problem, dir: &str) -> Value {
         json!({"ev": "PrintCase", "run": run,
             "same_stream": mask_time(&b1) == mask_time(&b2), "same_file": mask_time(&b1) == mask_time(&b3),
             "same_short_stream": mask_time(&b1) == mask_time(&b7),
+            "reread_same": b1 == b1_again,
+            "two_solves_same": mask_time(&b1_two) == mask_time(&b2_two) && b1_two.starts_with(&b1) && b1_two.len() > b1.len(),
             "len_buffer": b1.len(), "len_quiet_buffer": b4.len(), "len_quiet_stream": b5len, "len_after_sink": b6.len(),
             "getbuf_err": [getbuf_stream_err, getbuf_file_err, getbuf_sink_err],
             "parsed": rec_ipm::parse_print(&b1), "config": parse_config(&b1),
